@@ -284,14 +284,20 @@ def copy_harness(vname, s):
     return harness
 
 
+class IdSet(set):
+    """a mutable set that is hashable (by identity): a legal member of a set"""
+    __hash__ = object.__hash__
+
+
 def frozen_members_harness(ex):
     """sets of frozensets: like the built-in set, a mutable set is accepted as the spelling of an equal frozenset member by the
     element operations (membership, remove, discard) - same result, same event discipline"""
     events = []
-    members = [frozenset({1}), frozenset({1, 2}), frozenset(), 5]
+    g = IdSet({3})
+    members = [frozenset({1}), frozenset({1, 2}), frozenset(), 5, g]
     ts = tso.TraitSet(members, notifiers=[lambda s_, removed, added: events.append((set(removed), set(added)))])
     ref = set(members)
-    arg = [{1}, {1, 2}, set(), {9}, frozenset({1}), 5, 7][ex.choice("argument", 7)]
+    arg = [{1}, {1, 2}, set(), {9}, frozenset({1}), 5, 7, g, IdSet({3}), {3}, IdSet({1})][ex.choice("argument", 11)]
     op = ["remove", "discard", "add"][ex.choice("op", 3)]
     before = set(ts)
     exc_t = exc_r = None
@@ -309,6 +315,8 @@ def frozen_members_harness(ex):
         ex.check(set(ts) == before and events == [], "failing operation changes nothing")
     if set(ts) != before:
         ex.check(len(events) == 1 and (before - events[0][0]) | events[0][1] == set(ts), "exactly one event for a content change")
+        ex.check(len(events) == 1 and events[0][0] <= before and not (events[0][1] & before),
+                 "removed is a subset of the previous contents and added is disjoint from them")
     else:
         ex.check(events == [], "operation that changes nothing is silent")
     return {"op": op}
@@ -466,7 +474,8 @@ def obligations(tier, build):
                                                       "validator": vname, "container": cont},
                                               leverage="membership / overlap of symbolic elements", **common))
     for label, fac_ in (("owned-anytrait", owners.set_factory(route="anytrait")), ("owned-added", owners.set_factory(added=True)),
-                        ("owned-added-anytrait", owners.set_factory(route="anytrait", added=True))):
+                        ("owned-added-anytrait", owners.set_factory(route="anytrait", added=True)),
+                        ("owned-added-over", owners.set_factory(added="over"))):
         for s in (0, 1, 2):
             for op in OPS1 + OPS0:
                 obs.append(Obligation("%s/%s/s=%d" % (label, op, s), make_harness(op, s, (), (), "ident", factory=fac_),
@@ -490,7 +499,7 @@ def obligations(tier, build):
                                   bounds={"stored elements s": s, "owner": "falsy (defines __bool__ / __len__)"},
                                   leverage="validity of symbolic elements", **common))
     obs.append(Obligation("frozenset-members", frozen_members_harness,
-                          bounds={"members": "frozensets and an int", "arguments": "mutable sets equal / unequal to members, frozenset, ints",
+                          bounds={"members": "frozensets, an int and a set subclass hashable by identity", "arguments": "mutable sets equal / unequal to members, frozenset, ints, the hashable set member itself and equal sets",
                                   "operations": ["remove", "discard", "add"]}, leverage="choice feasibility only", stubs=[]))
     for s in (0, 2):
         obs.append(Obligation("owned-copy/s=%d" % s, owned_copy_harness(s),
